@@ -1,5 +1,6 @@
 """C12 — analysis results are a stable fixed point of the pass pipeline."""
 import os
+import time
 from vlib import *
 import corpus
 import props.execcommon as ex
@@ -28,6 +29,20 @@ def passloop_model(out, tier):
             ("refuted: " + " ".join(l.strip() for l in r.out.splitlines() if "is violated" in l)) if refuted else "not refuted at this bound"
         if cfg == "PassLoop_old1" and not refuted:
             raise ToolError("negative control PassLoop_old1 was not refuted: the model does not distinguish the repaired scheme")
+    # N = 4 on a slice of the graphs (no kills, one generating node): the scheme before the roots were pinned must be
+    # refuted (facts that flip between two states for ever), the present one must hold
+    r3 = run_tlc("PassLoop", cfg="PassLoop_old3", workers=8, heap="8g", timeout=1500)
+    out.add_tlc(r3)
+    if "Invariant SweepBound is violated" not in r3.out:
+        raise ToolError("negative control PassLoop_old3 (roots not pinned, N = 4) was not refuted")
+    info["PassLoop_old3 (negative control, N = 4: a promoted root takes its predecessors into account after its first visit)"] = \
+        "refuted: Invariant SweepBound is violated (the facts of an unreachable loop flip between two states for ever)"
+    r4 = run_tlc("PassLoop", cfg="PassLoop_n4s", workers=8, heap="8g", timeout=1500)
+    out.add_tlc(r4)
+    if r4.rc != 0:
+        raise ToolError("PassLoop.tla (N = 4, slice): design properties violated:\n" + r4.out[-2500:])
+    info["PassLoop N=4 slice (all graphs with out-degree <= 2, no kills, one generating node, 2 runs)"] = \
+        {"distinct_states": r4.distinct, "result": "SweepBound, FixedPoint, Stable, AllVisited hold"}
     # the rounds of value analysis and ecall termination in Manager::gen_full_cfg
     rp = run_tlc("Pipeline", cfg="Pipeline", workers=8, heap="12g", timeout=1800)
     out.add_tlc(rp)
@@ -119,6 +134,7 @@ def run(tier, replay=None):
     hists, gres = tlc_generate("Gen_Hist", coverage=True)
     out.add_tlc(gres)
     hists = [h["hist"] for h in hists]
+    light = set()
     if replay:
         texts = [json.load(open(replay))["witness"]["text"]]      # a multi-file input is its JSON text
     else:
@@ -140,17 +156,35 @@ def run(tier, replay=None):
         out.add_tlc(rcsr)
         texts += [c["text"] for c in rcsr.tagged("CASE")]
         texts = list(dict.fromkeys(texts))
+        # unreachable regions of K statements, every arrangement of jumps / branches / known / unknown values (the graphs
+        # on which the value analysis picks its own starting points); run with the short histories only
+        dres = tlc_generate("Gen_DeadCode", cfg="Gen_DeadCode4", heap="6g")
+        out.add_tlc(dres[1])
+        dead = [c["text"] for c in dres[0]]
+        d3 = tlc_generate("Gen_DeadCode", cfg="Gen_DeadCode3r", heap="6g")
+        out.add_tlc(d3[1])
+        dead += [c["text"] for c in d3[0]]
+        if tier == "thorough":
+            d5 = tlc_generate("Gen_DeadCode", cfg="Gen_DeadCode5", heap="8g", timeout=3000)
+            out.add_tlc(d5[1])
+            dead += [c["text"] for i, c in enumerate(d5[0]) if i % 3 == seed() % 3]
+        light = set(dead) - set(texts)
+        texts += sorted(light)
         texts += [json.dumps(f, sort_keys=True) for f in corpus.TWIN_FILES]      # multi-file inputs travel as JSON text
 
+    short = [h for h in hists if len(h) <= 1]
+
     def case_of(i, t):
-        c = {"id": i + 1, "mode": "stable", "histories": hists, "digest": not replay}
+        c = {"id": i + 1, "mode": "stable", "histories": (short if t in light else hists), "digest": not replay}
         if t.startswith("{"):
             c["files"], c["base"] = json.loads(t), "main.s"
         else:
             c["text"] = t
         return c
     hc = [case_of(i, t) for i, t in enumerate(texts)]
+    t0 = time.time()
     tp, evs = run_harness_par(rvh, hc, wd, "stable", timeout_ms=30000, shards=12)
+    log(f"[c12] {len(hc)} programs ({len(light)} with short histories) analysed in {time.time() - t0:.0f}s")
     trace = []
     owner = []
     nruns = 0
@@ -190,7 +224,9 @@ def run(tier, replay=None):
         head, rest = stexts[:len(corpus.LOOP_PROGRAMS)], stexts[len(corpus.LOOP_PROGRAMS):]
         r.shuffle(rest)
         stexts = [t for t in head if t] + rest[:nsteps]
+    t0 = time.time()
     sv, sinfo = steps_check(out, rvh, wd, stexts)
+    log(f"[c12] step traces of {len(stexts)} programs checked in {time.time() - t0:.0f}s")
     v, ress = validate_chunks("Trace_Stable", trace, wd, "stable.chunk", chunk=20000, heap="8g")
     # chunks restart the state machine: a chunk boundary inside a program only loses a comparison, never adds one
     for r in ress:
@@ -211,7 +247,7 @@ def run(tier, replay=None):
     out.assumptions += [
         "the harness sends a 64-bit keyed digest (with length) of each observable group instead of its text (equality is all the specification asks); a replay sends the text",
         "observables: node list, edges, value facts, live sets, u_def, function table / owners, lint diagnostics (canonical JSON per group)",
-        "sweep bound 4*N + 3 per pass run (N = number of Cfg nodes; PassLoop.tla reaches 4*N - 1 on chains of dead loops); sweep counters come from the rva_verif hooks",
+        "sweep cap 4*N + 3 per run of a real pass (N = number of Cfg nodes); PassLoop.tla (one fact) reaches exactly 2*N + 1 for N <= 4; sweep counters come from the rva_verif hooks",
         "a chunk boundary of the validated trace may drop one comparison, never add one",
     ]
     return out.finish(extra_cov={
